@@ -18,11 +18,12 @@ PROPS = {
     },
     "C16": {
         "pkg": "hpure", "test": "TestC16", "replay_test": "TestC16_Replay", "level": "exploration",
-        "quick": T(8, 3000, fixed=["TestC16_Exhaustive"]), "thorough": T(16, 60000, fixed=["TestC16_Exhaustive"], timeout=3000),
+        "quick": T(8, 0, fixed=["TestC16_Exhaustive"], timeout=900, tests=[{"test": "TestC16", "checks": 3000}, {"test": "TestC16_Manager", "checks": 40, "pkg": "hreader", "shards": 16}]),
+        "thorough": T(16, 0, fixed=["TestC16_Exhaustive"], timeout=7000, tests=[{"test": "TestC16", "checks": 60000}, {"test": "TestC16_Manager", "checks": 1200, "pkg": "hreader"}]),
         "rule": "layer 1: real util.ChannelMapping driven by the manager's direct-assignment protocol over counts 0..6 x 0..6 and random offer sequences (rapid), "
                 "plus exhaustive enumeration of all offer sequences of length 5 (quick) / 6 (thorough) for counts 1..3 x 1..3; oracle on public queries: function, stability, "
                 "quota ceil(larger/smaller) (1-to-1 for equal counts), assignment iff quota free. non-trivial = at least one offer refused by the quota after >= 2 assignments; distinct = distinct (counts, offer sequence)",
-        "assumptions": ["the wait/forward part of the protocol is in the manager, not in ChannelMapping; it is exercised by the reader harness"],
+        "assumptions": ["layer 2 (TestC16_Manager, reader harness): the real replicateChannelManager over generated catalogs with equal channel counts and skewed placements (direct assignment, waiting handlers, forwarding); the assignment is read off the tick-only packs (they leave on the channel the handler is bound to): never changes, one-to-one"],
     },
     "C17": {
         "pkg": "hpure", "test": "TestC17", "replay_test": "TestC17_Replay", "level": "exploration",
